@@ -52,6 +52,10 @@ type Env struct {
 	MemFiles bool
 	mem      map[string]*MemFile
 
+	// OnRead, when set, is called before every read of a flat file (a
+	// scheduling point for the cooperative scheduler).
+	OnRead func()
+
 	Steps     int // durable steps performed
 	Deviated  []string
 	LastCrash string
@@ -188,6 +192,13 @@ func (e *Env) choose(label string, alts []alt) alt {
 		e.C.Note("%s: %s", label, alts[i].name)
 	}
 	return alts[i]
+}
+
+func (w *wfile) ReadAt(p []byte, off int64) (int, error) {
+	if w.env.OnRead != nil {
+		w.env.OnRead()
+	}
+	return w.File.ReadAt(p, off)
 }
 
 func (w *wfile) Write(p []byte) (int, error) {
